@@ -143,7 +143,8 @@ Fixpoint lprefix (p l : list string) : bool :=
 Record entry := {
   e_name : string;
   e_isdir : bool;
-  e_date : string   (* time.Unix(Attributes.Mtime,0).Format("2006-01-02"): library, supplied with the case *)
+  e_date : string;  (* time.Unix(Attributes.Mtime,0).Format("2006-01-02"): library, supplied with the case *)
+  e_data : list N   (* the bytes of the file: its chunks (contiguous, non-overlapping) in offset order *)
 }.
 
 (* filer_pb.SubscribeMetadataResponse / EventNotification *)
@@ -485,3 +486,174 @@ Definition spec_files_step (c : config) (fs : list string) (ev : event) : list s
   end.
 Definition spec_files (c : config) (evs : list event) : list string :=
   fold_left (spec_files_step c) evs [].
+
+(* ---------- LocalSink, whole histories ---------- *)
+(* the backup tree has an entry of the other kind at [key] *)
+Definition kind_clash (t : tree) (key : string) (isdir : bool) : bool :=
+  match lookup_tree t key with Some d => negb (Bool.eqb d isdir) | None => false end.
+
+(* What makes one event's effect on the backup tree differ from the reference
+   file set: a multipart key (LocalSink skips /.uploads/*.part on purpose), an
+   entry of the other kind at the mapped key (os.Remove does not look at the
+   kind; OpenFile on a directory is EISDIR), a file among the ancestors of a
+   created file (ENOTDIR), an entry that changes its kind in one event. *)
+Definition local_step_clash (c : config) (t : tree) (ev : event) : bool :=
+  match ev_old ev with
+  | Some o => let k := segs (ev_dir ev) ++ [e_name o] in
+              inside c k && (is_multipart (map_path c k) || kind_clash t (map_path c k) (e_isdir o))
+  | None => false
+  end ||
+  match ev_new ev with
+  | Some n => let k := segs (ev_new_parent ev) ++ [e_name n] in
+              inside c k && negb (e_isdir n) &&
+              (is_multipart (map_path c k) || ancestor_is_file t (map_path c k) || kind_clash t (map_path c k) false)
+  | None => false
+  end ||
+  match ev_old ev, ev_new ev with
+  | Some o, Some n => negb (Bool.eqb (e_isdir o) (e_isdir n))
+  | _, _ => false
+  end.
+
+(* some event of the history meets such a clash (evaluated on the tree the
+   model has reached before that event) *)
+Fixpoint local_clash (c : config) (t : tree) (evs : list event) : bool :=
+  match evs with
+  | [] => false
+  | ev :: evs' =>
+      local_step_clash c t ev ||
+      local_clash c (fst (exec_plan _ local_do t (sync_process c ev))) evs'
+  end.
+
+(* ---------- the labels of the events a filer operation emits ---------- *)
+(* weed/filer/filer.go CreateEntry + ensureParentDirecotryEntry,
+   weed/filer/filer_delete_entry.go, weed/server/filer_grpc_server.go UpdateEntry,
+   weed/server/filer_grpc_server_rename.go: every emitted event goes through
+   Filer.NotifyUpdateEvent(old, new, deleteChunks, isFromOtherCluster, signatures),
+   which appends the filer's own signature.  Which events exist is an input (the
+   skeleton: key, kind); the model says which signatures / flag each one carries. *)
+Inductive opkind := ECreate | EUpdate | EDelete | ERename.
+
+Record emitted := {
+  m_key : string;           (* queue key = full path of the old entry, else of the new entry *)
+  m_isdir : bool;
+  m_has_old : bool;
+  m_has_new : bool;
+  m_sigs : list Z;          (* observed / predicted Signatures *)
+  m_from_other : bool       (* observed / predicted IsFromOtherCluster *)
+}.
+
+Record emit_op := {
+  em_self : Z;              (* Filer.Signature *)
+  em_kind : opkind;
+  em_top : string;          (* the path the request names (rename: the old path) *)
+  em_top2 : string;         (* rename: the new path *)
+  em_sigs : list Z;         (* the request's Signatures *)
+  em_from_other : bool;     (* the request's IsFromOtherCluster *)
+  em_evs : list emitted
+}.
+
+(* NotifyUpdateEvent: append the own signature unless present *)
+Definition with_self (self : Z) (sigs : list Z) : list Z :=
+  if existsb (Z.eqb self) sigs then sigs else sigs ++ [self].
+
+(* filepath.Dir of a clean absolute path *)
+Definition parent_path (p : string) : string := abs (removelast (segs p)).
+
+(* the events that are emitted with signatures = nil: implicitly created parent
+   directories (filer.go: NotifyUpdateEvent(nil, dirEntry, false, isFromOtherCluster, nil))
+   and everything below the directory of a recursive delete
+   (filer_delete_entry.go: NotifyUpdateEvent(sub, nil, ..., nil) and the recursion with (false, nil)) *)
+Definition emitted_bare (op : emit_op) (m : emitted) : bool :=
+  match em_kind op with
+  | ECreate => negb (String.eqb (m_key m) (em_top op))
+  | EUpdate => false
+  | EDelete => negb (String.eqb (m_key m) (em_top op))
+  | ERename => m_isdir m && negb (m_has_old m) &&
+               String.prefix (m_key m ^^ "/") (em_top2 op)
+  end.
+
+Definition emitted_flag (op : emit_op) (m : emitted) : bool :=
+  match em_kind op with
+  | ECreate | EUpdate => em_from_other op
+  | EDelete =>
+      if String.eqb (m_key m) (em_top op) then em_from_other op
+      else (* a file directly in the deleted directory keeps the flag; sub-directories and
+              everything below them are notified with false *)
+           em_from_other op && negb (m_isdir m) && String.eqb (parent_path (m_key m)) (em_top op)
+  | ERename => false        (* AtomicRenameEntry has no such flag: CreateEntry(.., false, ..) *)
+  end.
+
+Definition emit_label (op : emit_op) (m : emitted) : list Z * bool :=
+  (if emitted_bare op m then [em_self op] else with_self (em_self op) (em_sigs op),
+   emitted_flag op m).
+
+(* the property: an event emitted while applying a change that came with
+   signatures S (the filers that have already seen it) carries all of S, and a
+   replicated change stays marked as replicated *)
+Definition emit_ok (op : emit_op) (sigs : list Z) (flag : bool) : bool :=
+  forallb (fun s => existsb (Z.eqb s) sigs) (em_sigs op) && (negb (em_from_other op) || flag).
+
+(* finding 1: some emitted event is notified without the request's signatures /
+   flag, and the request had some to lose *)
+Definition emit_unsafe (op : emit_op) : bool :=
+  existsb (fun m => let '(sg, fl) := emit_label op m in negb (emit_ok op sg fl)) (em_evs op).
+
+(* ---------- incremental sinks: the reference ---------- *)
+(* the mapped path with the date folder inserted after the target directory;
+   nothing is ever deleted or updated for a change that leaves a new entry *)
+Definition map_path_inc (c : config) (date : string) (k : list string) : string :=
+  abs (tgt_segs c ++ [date] ++ skipn (List.length (src_segs c)) k).
+Definition mirror_spec_inc (c : config) (ev : event) : plan :=
+  let dk := date_key ev in
+  match ev_old ev, ev_new ev with
+  | Some o, None =>
+      let ok := segs (ev_dir ev) ++ [e_name o] in
+      if inside c ok then Do (Delete (map_path_inc c dk ok) (e_isdir o) (ev_delete_chunks ev)) else Nothing
+  | _, Some n =>
+      let nk := segs (ev_new_parent ev) ++ [e_name n] in
+      if inside c nk then Do (Create (map_path_inc c dk nk) n) else Nothing
+  | None, None => Nothing
+  end.
+
+(* ---------- LocalSink: file content ---------- *)
+(* CreateEntry: OpenFile(O_CREATE|O_TRUNC) + CopyFromChunkViews writes the new
+   entry's bytes, whether or not the file existed.  The content map follows the
+   tree: after every sink call it holds exactly the paths that are files. *)
+Definition contents := list (string * list N).
+Definition set_data (m : contents) (k : string) (d : list N) : contents :=
+  filter (fun x => negb (String.eqb (fst x) k)) m ++ [(k, d)].
+Definition keep_files (t : tree) (m : contents) : contents :=
+  filter (fun x => match lookup_tree t (fst x) with Some false => true | _ => false end) m.
+
+Definition local_do_data (st : tree * contents) (o : sinkop) : (tree * contents) * (bool * bool) :=
+  let '(t, m) := st in
+  let '(t', (found, err)) := local_do t o in
+  let m1 := match o with
+            | Create key e => if negb err && negb (e_isdir e) && negb (is_multipart key) then set_data m key (e_data e) else m
+            | Update key np e _ =>
+                if negb err && negb (e_isdir e) && negb (is_multipart key) && String.eqb (join [np; e_name e]) key
+                then set_data m key (e_data e) else m
+            | Delete _ _ _ => m
+            end in
+  ((t', keep_files t' m1), (found, err)).
+
+Fixpoint run_local_data (c : config) (st : tree * contents) (evs : list event) : tree * contents :=
+  match evs with
+  | [] => st
+  | ev :: evs' => run_local_data c (fst (exec_plan _ local_do_data st (sync_process c ev))) evs'
+  end.
+
+(* reference for the content: the bytes of the last new entry at each mapped path *)
+Definition spec_data_step (c : config) (m : contents) (ev : event) : contents :=
+  let m1 := match ev_old ev with
+            | Some o => let k := segs (ev_dir ev) ++ [e_name o] in
+                        if negb (e_isdir o) && inside c k
+                        then filter (fun x => negb (String.eqb (fst x) (map_path c k))) m else m
+            | None => m
+            end in
+  match ev_new ev with
+  | Some n => let k := segs (ev_new_parent ev) ++ [e_name n] in
+              if negb (e_isdir n) && inside c k then set_data m1 (map_path c k) (e_data n) else m1
+  | None => m1
+  end.
+Definition spec_data (c : config) (evs : list event) : contents := fold_left (spec_data_step c) evs [].
